@@ -247,6 +247,7 @@ def main(ctx):
         lres = list(ex.map(R.lens_job, jobs, chunksize=2))
         lres += list(ex.map(R.surface_job, sjobs, chunksize=4))
         lres += list(ex.map(R.inlens_job, [(ctx.seed * 1299709 + i,) for i in range(24 if quick else 600)], chunksize=4))
+        lres += list(ex.map(R.monocentric_job, [(ctx.seed * 15485863 + i,) for i in range(12 if quick else 300)], chunksize=4))
     lev, ntraces, nlens = [], 0, 0
     for res in lres:
         if res.get("error"):
@@ -300,7 +301,9 @@ def main(ctx):
     ctx.extra["events_by_kind"] = kinds
     ctx.extra["lenses"] = nlens - len([x for x in lres[len(jobs):] if not x.get("error")])
     ctx.extra["single_surface_systems"] = len([x for x in lres[len(jobs):len(jobs) + len(sjobs)] if not x.get("error")])
-    ctx.extra["polarizers_inside_a_lens"] = len([x for x in lres[len(jobs) + len(sjobs):] if not x.get("error")])
+    ninl = 24 if quick else 600
+    ctx.extra["polarizers_inside_a_lens"] = len([x for x in lres[len(jobs) + len(sjobs):len(jobs) + len(sjobs) + ninl] if not x.get("error")])
+    ctx.extra["monocentric_oblique_field_lenses"] = len([x for x in lres[len(jobs) + len(sjobs) + ninl:] if not x.get("error")])
     ctx.extra["observations_outside_the_property"] = [
         "a Jones element handed to PolarizedRays.update acts in the local s/p frame of each ray at each surface: for an "
         "undeviated ray s = k x x^ (the y axis on axis), for a deviated one the normal of its plane of incidence - a "
